@@ -146,7 +146,11 @@ def gen_ops(ch: Choices, cap: int, budget: int, avoid: set, calm: bool, nv: bool
             slow = [ch.flag(1, 2, "slow") for _ in range(tries)]
             if "min-fidelity-never-reached" in avoid:
                 slow[-1] = False
-            ops.append(("keep_minfid", "create" if ch.flag(1, 2, "role") else "recv", names, 50 + ch.draw(51, "fid"), tries, slow))
+            role_mf = "create" if ch.flag(1, 2, "role") else "recv"
+            # a third of the receive-side ones are remote-state-preparation receives (same re-try wrapper, other builder path)
+            ops.append(("keep_minfid", role_mf, names, 50 + ch.draw(51, "fid"), tries, slow,
+                        # (not with two pairs on NV: recv_rsp(number>=2) never completes there -- C10's recorded finding)
+                        role_mf == "recv" and ch.flag(1, 3, "rsp") and not (nv and m > 1)))
         elif k == "keep_seq_post":
             m = 1 + ch.draw(3, "npairs")
             ops.append(("keep_seq_post", "create" if ch.flag(1, 2, "role") else "recv", m))
@@ -275,7 +279,8 @@ def run(ch: Choices, opts: Dict[str, Any]) -> Dict[str, Any]:
                     state["epr"] = True
                 elif k == "keep_minfid":
                     state["kinds"].add(k)
-                    role, names, fid, tries, slow = op[1:]
+                    role, names, fid, tries, slow = op[1:6]
+                    rsp = len(op) > 6 and op[6]
                     maxt = 100_000 - fid * 900       # the documented conversion of the fidelity bound into a duration
                     attempts = (slow.index(False) + 1) if False in slow else tries
                     plans = []
@@ -286,10 +291,14 @@ def run(ch: Choices, opts: Dict[str, Any]) -> Dict[str, Any]:
                         got = sock.create_keep(number=len(names), min_fidelity_all_at_end=fid, max_tries=tries)
                         create_plans.extend(plans)
                     else:
-                        got = sock.recv_keep(number=len(names), min_fidelity_all_at_end=fid, max_tries=tries)
+                        if rsp:
+                            got = sock.recv_rsp(number=len(names), min_fidelity_all_at_end=fid, max_tries=tries)
+                            bump(probes, "rsp-min-fidelity")
+                        else:
+                            got = sock.recv_keep(number=len(names), min_fidelity_all_at_end=fid, max_tries=tries)
                         for pl in plans:
-                            link.submit(creator=GHOST, receiver=0, purpose_c=0, purpose_r=0, tp=RequestType.K,
-                                        number=len(names), tag=pl)
+                            link.submit(creator=GHOST, receiver=0, purpose_c=0, purpose_r=0,
+                                        tp=RequestType.R if rsp else RequestType.K, number=len(names), tag=pl)
                     for nm, q in zip(names, got):
                         qs[nm] = q
                     bump(probes, "keep-min-fidelity")
